@@ -49,6 +49,17 @@ func genC02(g *G, n int, out io.Writer) {
 			a, ns := moveToNs(gr, &p, g.pick(propPool), k)
 			prefixes[a] = ns
 		}
+		if i%5 == 4 {
+			// anonymous nodes: some nodes other than the focus node have a blank-node label instead of an IRI (labels in document
+			// order, as the JSON-LD processor would hand them out); a path passes through them, and ends at them, like through any other node
+			n := 0
+			for k := range gr {
+				if k != f && g.coin(0.5) {
+					renameNode(gr, gr[k].Id, fmt.Sprintf("_:b%d", n))
+					n++
+				}
+			}
+		}
 		fetch := g.coin(0.3)
 		c := C02Case{Op: "c02", Id: i, Path: p, Graph: gr, Focus: gr[f].Id, Fetch: fetch, Text: p.Render(), Prefixes: prefixes}
 		fillC02(&c)
@@ -90,3 +101,20 @@ func fillC02(c *C02Case) {
 }
 
 func bp(b bool) *bool { return &b }
+
+// renameNode gives a node another id, in its description and in every link to it
+func renameNode(gr Graph, from, to string) {
+	for k := range gr {
+		if gr[k].Id == from {
+			gr[k].Id = to
+		}
+		for pi := range gr[k].Props {
+			for vi := range gr[k].Props[pi].Vals {
+				if r := gr[k].Props[pi].Vals[vi].R; r != nil && *r == from {
+					t := to
+					gr[k].Props[pi].Vals[vi].R = &t
+				}
+			}
+		}
+	}
+}
